@@ -481,6 +481,26 @@ pub fn node_signature(r: &Relation) -> String {
     }
 }
 
+/// Per output column of a node, the root of the expression that computes it (function / aggregate name, "col", "value"):
+/// used to tell apart the findings about declared types of different expressions at nodes of the same shape.
+pub fn column_roots(r: &Relation) -> Vec<String> {
+    use qrlew::expr::Expr;
+    fn root(e: &Expr) -> String {
+        match e {
+            Expr::Column(_) => "col".into(),
+            Expr::Value(_) => "value".into(),
+            Expr::Function(f) => format!("{}", f.function()),
+            Expr::Aggregate(a) => format!("{}", a.aggregate()),
+            Expr::Struct(_) => "struct".into(),
+        }
+    }
+    match r {
+        Relation::Map(m) => m.projection().iter().map(root).collect(),
+        Relation::Reduce(x) => x.aggregate().iter().map(|a| format!("{}", a.aggregate())).collect(),
+        _ => r.schema().iter().map(|_| kind_of(r).to_string()).collect(),
+    }
+}
+
 /// Does the ON condition equate a column that carries a unique / primary key constraint?
 fn join_on_unique_key(j: &qrlew::relation::Join) -> bool {
     use qrlew::expr::Expr;
@@ -751,7 +771,7 @@ pub fn run_case(case: &J) -> J {
     // every node: declared schema / size and what it really produces
     let mut ns = vec![];
     for n in nodes(&relation) {
-        let mut nj = json!({"name": n.name(), "kind": kind_of(n), "sig": node_signature(n), "schema": schema_json(n), "size": size_json(n),
+        let mut nj = json!({"name": n.name(), "kind": kind_of(n), "sig": node_signature(n), "roots": guarded(|| column_roots(n)).unwrap_or_default(), "schema": schema_json(n), "size": size_json(n),
                             "root": n == &relation});
         match guarded(|| render(n)) {
             Ok(q) => match exec(&conn, &q) {
